@@ -221,7 +221,7 @@ def run_for(ctx, pid):
             if s != 'ok' and s.startswith(pref):
                 what = '%s -d %s%s %s' % (os.path.relpath(j['file'], vlib.REPO), j['format'], ' force' if j['force'] else '',
                                           '' if j['mut']['kind'] == 'none' else json.dumps(j['mut']))
-                base = s if s.startswith('gaps.merge_slack') else '%s@%s' % (s, family(j['file']))
+                base = s if s.startswith('gaps.merge_slack') or s == 'tree.range_stretched_by_empty_value_past_end' else '%s@%s' % (s, family(j['file']))
                 ctx.finding(base, what, dict(job=j))
     ctx.cov['corpus'] = dict(sample_files_available=ntotal, files_used=nfiles, decode_jobs=len(jobs), trees=ntrees, nodes=nnodes,
                              small_trees_to_tlc=len(small_events), outcomes=dict(outcomes))
